@@ -203,8 +203,11 @@ func checkCase(t fataler, base infoM, vs []variant, primary crypto.Hash) {
 		fmt.Fprintf(&b, "failing variant: %s\n", v)
 		ev.Failf(t, "%s%s", b.String(), fmt.Sprintf(format, args...))
 	}
+	// (at the invariance level the literal construction is still unambiguous:
+	// all sort keys are distinct; a form without FORM_TYPE has the key and
+	// FORM_TYPE value "", a field without var the name "")
 	want := ""
-	if lvl == lvlWellFormed {
+	if lvl >= lvlInvariant {
 		want = refString(base)
 	}
 	first := map[crypto.Hash]string{}
@@ -271,7 +274,7 @@ func checkCase(t fataler, base infoM, vs []variant, primary crypto.Hash) {
 					fail(v, "%s: variant %d gives %q, variant %d (same sets, other order) gives %q", hf, firstBy[hf], prev, i, res[0])
 				}
 			}
-			if lvl == lvlWellFormed {
+			if lvl >= lvlInvariant {
 				if exp := refVer(want, hf.New()); res[0] != exp {
 					fail(v, "%s: Hash = %q, XEP-0115 §5.1 gives %q for S = %q", hf, res[0], exp, want)
 				}
